@@ -470,7 +470,12 @@ class C08Contract(Monitor):
             en = type(err).__name__
             if en in REFUSALS:
                 after = impl.digest(s)
-                if after != self.before and len(s.operations) > sess.nlog_before:
+                if after != self.before and len(s.operations) > sess.nlog_before and en == 'UserWarning':
+                    # a warning is a way of refusing: raised after the operation was carried out and recorded, it
+                    # reports as refused what has happened (and its query had said yes)
+                    self.report('refused_unchanged', f'warned_after_commit:{name}',
+                                f'{line!r} raised UserWarning after it was recorded; can said {self.can}')
+                elif after != self.before and len(s.operations) > sess.nlog_before:
                     pass    # performed, then an automated follow-up was refused: C07's clause
                 elif after != self.before:
                     self.report('refused_unchanged', f'changed:{name}', f'{line!r} refused with {en} but state changed')
